@@ -290,6 +290,55 @@ func runPair(l *PairLine, pkg *reg.Pkg, x *conc.Ctx, mode string, res *rep.Resul
 		if same, err := ygot.Diff(ra, fresh(&l.A)); err == nil && len(same.Update)+len(same.Delete) > 0 {
 			res.Violate("C03", sig("self-diff"), fmt.Sprintf("Diff(a, a) is not empty: %v", same), pc)
 		}
+		// the path options: the diff names one path per leaf (MapToSinglePath) and / or the shadow
+		// paths (PreferShadowPath, for structs that carry shadow-path tags); applied with the
+		// matching unmarshalling option it must still turn a into b
+		if pkg.ShadowTags {
+			for _, po := range []*ygot.DiffPathOpt{{MapToSinglePath: true}, {PreferShadowPath: true}, {MapToSinglePath: true, PreferShadowPath: true}} {
+				var on *gpb.Notification
+				oerr, pan := guard(func() error {
+					var err error
+					on, err = ygot.Diff(ra, rb, po)
+					return err
+				})
+				name := fmt.Sprintf("single=%v,shadow=%v", po.MapToSinglePath, po.PreferShadowPath)
+				if pan != "" {
+					res.Violate("C20", sig("panic"), "panic in Diff("+name+"): "+firstLine(pan), pc)
+					continue
+				}
+				if oerr != nil {
+					res.Violate("C03", sig("diff-error-opts"), fmt.Sprintf("Diff(%s) failed: %v", name, oerr), pc)
+					continue
+				}
+				ca := fresh(&l.A)
+				st, _ := schemaTree(pkg)
+				var uo []ytypes.UnmarshalOpt
+				if po.PreferShadowPath {
+					uo = append(uo, &ytypes.PreferShadowPath{})
+				}
+				aerr, apan := guard(func() error {
+					return ytypes.UnmarshalNotifications(&ytypes.Schema{Root: ca, SchemaTree: st}, []*gpb.Notification{on}, uo...)
+				})
+				if apan != "" {
+					res.Violate("C20", sig("panic"), "panic applying Diff("+name+"): "+firstLine(apan), pc)
+					continue
+				}
+				res.Count("diff_path_options", 1)
+				if aerr != nil {
+					res.Violate("C03", sig("apply-error-opts"), fmt.Sprintf("the notification from Diff(%s) cannot be applied: %v; diff %v", name, aerr, on), pc)
+					continue
+				}
+				ga, gb := dataOf(ca, pkg, x), wantB
+				if len(l.B.Oe) > 0 || len(l.A.Oe) > 0 {
+					ga.Ordered, gb.Ordered = map[string]bool{}, map[string]bool{}
+				}
+				if dd := diffIgnoringOrder(ga, gb); len(dd) > 0 {
+					s := sig("sound-complete-opts")
+					s["opts"] = name
+					res.Violate("C03", s, fmt.Sprintf("applying Diff(a,b,%s) to a does not give b's leaves: %s; diff %v", name, strings.Join(dd, "; "), on), pc)
+				}
+			}
+		}
 		// IgnoreAdditions omits exactly the leaves new in b
 		ign, ierr := ygot.Diff(ra, rb, &ygot.IgnoreAdditions{})
 		if ierr == nil {
